@@ -777,10 +777,24 @@ INTEGER_encode_uper(const asn_TYPE_descriptor_t *td,
 		ASN__ENCODED_OK(er);
 	}
 
-	if(ct && ct->lower_bound) {
-		ASN_DEBUG("Adjust lower bound to %ld", ct->lower_bound);
-		/* TODO: adjust lower bound */
-		ASN__ENCODE_FAILED;
+	/* X.691-11/2008, #13.2.3 -> #11.7, semi-constrained whole number */
+	if(ct && (ct->flags & APC_SEMI_CONSTRAINED)) {
+		/* (value - lb) as a non-negative-binary-integer in minimum octets */
+		unsigned long v = (unsigned long)value - (unsigned long)ct->lower_bound;
+		uint8_t octets[sizeof(v)];
+		size_t n = 0;
+		size_t i;
+		do {
+			n++;
+		} while(n < sizeof(v) && (v >> (8 * n)) != 0);
+		for(i = 0; i < n; i++)
+			octets[i] = (uint8_t)(v >> (8 * (n - 1 - i)));
+		ASN_DEBUG("Encoding semi-constrained %lu in %d octets", v, (int)n);
+		if(uper_put_length(po, n, 0) != (ssize_t)n)
+			ASN__ENCODE_FAILED;
+		if(per_put_many_bits(po, octets, 8 * n))
+			ASN__ENCODE_FAILED;
+		ASN__ENCODED_OK(er);
 	}
 
 	for(buf = st->buf, end = st->buf + st->size; buf < end;) {
